@@ -27,6 +27,7 @@ type pool3 struct {
 	trades, fills, refunds, partial int
 	filled bool
 	disk   map[uint32]bool // ids committed to the tree
+	lastPartial uint32      // id of the order the last trade filled partially (0: none)
 }
 
 // shadowTrade updates the shadow of live orders from the fills/closures the implementation reported.
@@ -259,6 +260,7 @@ func (p *pool3) exec1(op []*big.Int, dirOf func(*big.Int) bool) []*big.Int {
 				o = cp(op[2])
 				in, _, det, exp = pr.BuyWithOrders(cp(op[2]))
 			}
+			p.lastPartial = 0
 			monitorTrade(&p.mon, &p.hist, x0, x1, p.pair(dir), det, before)
 			p.shadowTrade(det, exp)
 			p.trades++
@@ -269,6 +271,7 @@ func (p *pool3) exec1(op []*big.Int, dirOf func(*big.Int) bool) []*big.Int {
 				last := det.Orders[len(det.Orders)-1]
 				if bs, ok := before[last.ID()]; ok && last.WantBuy.Cmp(bs[0]) < 0 {
 					p.partial++
+					p.lastPartial = last.ID()
 				}
 			}
 			return encTrade(in, o, p.pair(dir), det, exp)
@@ -396,12 +399,19 @@ func runPool3(seed uint64, n int, out, stats string, args []string) {
 					a = Z(int64(r.Intn(3000)))
 				}
 				do(L(Z(2), dz, a))
+				if p.lastPartial != 0 && r.Intn(2) == 0 {
+					// cancel the order that was just filled partially, before any commit (the order is dirty in memory)
+					do(L(Z(4), Z(int64(p.lastPartial))))
+				}
 			case k < 9: // buy
 				o := r.BigBelow(new(big.Int).Div(x1, Z(int64(1+r.Intn(20)))))
 				if r.Intn(10) == 0 {
 					o = Z(int64(r.Intn(3000)))
 				}
 				do(L(Z(3), dz, o))
+				if p.lastPartial != 0 && r.Intn(2) == 0 {
+					do(L(Z(4), Z(int64(p.lastPartial))))
+				}
 			case k < 10: // (mostly commit, then) cancel a random known order id, twice
 				if r.Intn(3) != 0 {
 					do(L(Z(5)))
